@@ -261,6 +261,7 @@ def binOp (op : BinOp) (a b : V ω) : X ω (V ω) :=
   match op, a, b with
   | .add, .bytes x, .bytes y => .ok (.bytes (x ++ y))
   | .add, .tuple x, .tuple y => .ok (.tuple (x ++ y))
+  | .add, .ostr, .ostr => .ok .ostr                    -- two message texts joined: content still not inspected
   | op, a, b =>
     match asInt? a, asInt? b with
     | some i, some j => binInt op i j
